@@ -2,6 +2,7 @@
 pub mod cfg;
 pub mod obj;
 pub mod prog;
+pub mod sched;
 pub mod shadow;
 pub mod vm;
 pub mod world;
@@ -19,6 +20,48 @@ pub fn run(cfg: cfg::Config) -> ! {
         mmtk::verif::enable_log(1 << 20);
     }
     let w = world::init(cfg);
+    if w.cfg.log_events {
+        // the scheduler monitor consumes the event log continuously
+        std::thread::Builder::new()
+            .name("monitor".into())
+            .spawn(|| {
+                let w = world::world();
+                // bounded-progress form of "no worker stays parked while a runnable packet or a
+                // goal exists": the predicate must not hold over STALL_S seconds without a single
+                // park/unpark transition in between.
+                const STALL_S: u64 = 15;
+                let mut stall: Option<(std::time::Instant, u64)> = None;
+                loop {
+                    let evs = mmtk::verif::drain();
+                    {
+                        let mut m = w.monitor.lock().unwrap();
+                        if !evs.is_empty() {
+                            m.feed(&evs);
+                        }
+                        match (m.deadlock_witness(), stall) {
+                            (Some(wit), Some((t0, pe))) if pe == m.park_events => {
+                                if t0.elapsed().as_secs() >= STALL_S && !w.done.load(Ordering::Relaxed) {
+                                    m.c14.violation("stall:all-workers-parked-with-work-or-goal-pending", format!("for {} s without any park/unpark transition: {}", STALL_S, wit));
+                                    m.finish(false);
+                                    for r in [&m.c11, &m.c14, &m.c15, &m.c16] {
+                                        r.print();
+                                    }
+                                    drop(m);
+                                    world::print_reports_and_exit(1);
+                                }
+                            }
+                            (Some(_), _) => stall = Some((std::time::Instant::now(), m.park_events)),
+                            (None, _) => stall = None,
+                        }
+                    }
+                    if w.done.load(Ordering::Relaxed) {
+                        return;
+                    }
+                    std::thread::sleep(std::time::Duration::from_millis(if evs.is_empty() { 2 } else { 0 }));
+                }
+            })
+            .unwrap();
+    }
     // watchdog: no progress for `watchdog_s` seconds => report inconclusive and exit
     {
         let limit = w.cfg.watchdog_s;
@@ -40,6 +83,22 @@ pub fn run(cfg: cfg::Config) -> ! {
                     } else {
                         idle += 1;
                         if idle >= 2 * limit {
+                            if w.cfg.log_events {
+                                // decide with the state predicate, not with the clock
+                                let evs = mmtk::verif::drain();
+                                let mut m = w.monitor.lock().unwrap();
+                                m.feed(&evs);
+                                if let Some(wit) = m.deadlock_witness() {
+                                    m.c14.violation("deadlock:all-workers-parked-with-work-or-goal-pending", wit);
+                                } else {
+                                    m.c14.inconclusive(format!("no progress for {} s but the deadlock predicate does not hold", limit));
+                                }
+                                m.finish(false);
+                                let reps = [&m.c11, &m.c14, &m.c15, &m.c16];
+                                for r in reps {
+                                    r.print();
+                                }
+                            }
                             world::with_report("C01", |r| r.inconclusive(format!("no progress for {} s (ops {}, gcs {})", limit, w.counters.ops.load(Ordering::Relaxed), w.counters.gcs.load(Ordering::Relaxed))));
                             eprintln!("VERIF-WATCHDOG no progress for {} s", limit);
                             world::print_reports_and_exit(4);
@@ -82,6 +141,69 @@ pub fn finish() -> ! {
     }
     // one more run of the heap oracle on the final state (the only one under NoGC)
     shadow::on_pause_end();
+    if w.cfg.scenario == "fork" {
+        // finally shut the workers down: each must surrender exactly once and return
+        let n = w.cfg.workers;
+        let ret0 = w.workers_returned.load(Ordering::SeqCst);
+        w.mmtk.shutdown();
+        let mut waited = 0;
+        while w.workers_returned.load(Ordering::SeqCst) < ret0 + n && waited < 20000 {
+            std::thread::sleep(std::time::Duration::from_millis(1));
+            waited += 1;
+        }
+        world::with_report("C16", |r| {
+            r.count("shutdowns", 1);
+            if w.workers_returned.load(Ordering::SeqCst) < ret0 + n {
+                r.violation("shutdown:worker-never-returned", format!("{} of {} workers returned from start_worker within 20 s of shutdown", w.workers_returned.load(Ordering::SeqCst) - ret0, n));
+            }
+        });
+    }
+    if w.cfg.log_events {
+        // let the workers settle (they park after the last GC), then close the log
+        let mut quiet = 0;
+        let mut last = mmtk::verif::current_seq();
+        for _ in 0..2000 {
+            std::thread::sleep(std::time::Duration::from_millis(2));
+            let now = mmtk::verif::current_seq();
+            if now == last {
+                quiet += 1;
+                if quiet >= 10 {
+                    break;
+                }
+            } else {
+                quiet = 0;
+                last = now;
+            }
+        }
+        let evs = mmtk::verif::drain();
+        let mut m = w.monitor.lock().unwrap();
+        m.feed(&evs);
+        let truncated = mmtk::verif::log_truncated();
+        m.finish(true);
+        let mut reps = w.reports.lock().unwrap();
+        for r in [&m.c11, &m.c14, &m.c15, &m.c16] {
+            let dst = reps.entry(r.property.clone()).or_insert_with(|| Report::new(&r.property));
+            dst.evaluations += r.evaluations;
+            for k in r.keys.iter() {
+                dst.key(*k);
+            }
+            for (k, v) in r.counters.iter() {
+                dst.count(k, *v);
+            }
+            for (sig, d) in r.violations.iter() {
+                dst.violation(sig.clone(), d.clone());
+            }
+            for smp in r.samples.iter() {
+                dst.sample(smp.clone());
+            }
+            for i in r.inconclusive.iter() {
+                dst.inconclusive(i.clone());
+            }
+            if truncated {
+                dst.inconclusive(format!("event log truncated ({} events dropped)", mmtk::verif::log_dropped()));
+            }
+        }
+    }
     world::with_report("C01", |r| r.count("final_state_checks", 1));
     let c = &w.counters;
     let summary = J::obj(vec![
@@ -109,8 +231,14 @@ pub fn finish() -> ! {
                 r.count(&format!("gc_kind_{}", k), *v);
             }
         }
-        if let Some(r) = reps.get_mut("C01") {
-            r.sample(summary);
+        // one written-out case per property and process: the program's configuration and what
+        // this property's monitor observed in it
+        for r in reps.values_mut() {
+            if r.samples.len() >= 2 {
+                continue;
+            }
+            let observed: Vec<(String, J)> = r.counters.iter().filter(|(k, _)| !k.starts_with("processes_plan_")).map(|(k, v)| (k.clone(), J::i(*v))).collect();
+            r.sample(J::Obj(vec![("program".to_string(), summary.clone()), ("observed".to_string(), J::Obj(observed))]));
         }
     }
     world::print_reports_and_exit(0)
